@@ -96,7 +96,7 @@ def i_ADDI(i, fmap):
 @_pc
 def i_ADF(i, fmap):
     cond, src1, src2, dst = i.operands
-    cond = CONDITION[cond][1]
+    cond = CONDITION[cond.value][1]
     c = tst(cond, cst(1, dst.size), cst(0, dst.size))
     r, c, o = AddWithCarry(fmap(src1), fmap(src2), c)
     fmap[Z] = r == 0
@@ -519,14 +519,14 @@ def i_SHL(i, fmap):
 @_pc
 def i_CMOV(i, fmap):
     cond, src1, src2, dst = i.operands
-    cond = CONDITION[cond][1]
+    cond = CONDITION[cond.value][1]
     fmap[dst] = fmap(tst(cond, src1, src2))
 
 
 @_pc
 def i_CMP(i, fmap):
     cond, src1, src2 = i.operands
-    cond = CONDITION[cond][1]
+    cond = CONDITION[cond.value][1]
     r, c, o = SubWithBorrow(fmap(src2), fmap(src1))
     fmap[Z] = r == 0
     fmap[S] = r < 0
@@ -537,7 +537,7 @@ def i_CMP(i, fmap):
 @_pc
 def i_SASF(i, fmap):
     cond, dst = i.operands
-    cond = CONDITION[cond][1]
+    cond = CONDITION[cond.value][1]
     x = fmap(dst) << 1
     strue = x | cst(1, x.size)
     sfalse = x
@@ -547,7 +547,7 @@ def i_SASF(i, fmap):
 @_pc
 def i_SBSF(i, fmap):
     cond, src1, src2, dst = i.operands
-    cond = CONDITION[cond][1]
+    cond = CONDITION[cond.value][1]
     r, c, o = SubWithBorrow(fmap(src2), fmap(src1))
     fmap[Z] = r == 0
     fmap[S] = r < 0
@@ -561,7 +561,7 @@ def i_SBSF(i, fmap):
 @_pc
 def i_SETF(i, fmap):
     cond, dst = i.operands
-    cond = CONDITION[cond][1]
+    cond = CONDITION[cond.value][1]
     fmap[dst] = fmap(tst(cond, cst(1, dst.size), cst(0, dst.size)))
 
 
